@@ -789,6 +789,17 @@ class ImplEngine(object):
             resp, max_size, ver = self.engine.process_request(msg, cred)
         except exceptions.KmipError as e:
             return {"rejected": e.reason.value, "msg": str(e)}
+        except Exception as e:
+            # anything else that leaves process_request is answered by the session with ONE General Failure error
+            # response (session.py l.226-237) - whatever the items had already done
+            import traceback
+            fr = [f for f in traceback.extract_tb(e.__traceback__) if "/kmip/" in f.filename]
+            self.internal_errors.append({"exc": type(e).__name__, "msg": str(e)[:200],
+                                         "site": "%s:%s" % (os.path.basename(fr[-1].filename), fr[-1].name) if fr else "?",
+                                         "op": "process_request"})
+            return {"rejected": enums.ResultReason.GENERAL_FAILURE.value,
+                    "msg": "An unexpected error occurred while processing request. See server logs for more information.",
+                    "_exception": "%s: %s" % (type(e).__name__, str(e)[:200])}
         finally:
             if not self.scripted:
                 # hand the recorded backend answers to the model as its oracle
